@@ -161,7 +161,7 @@ class HTTPException(BaseResponse, Exception):
         headers = kwargs.pop('headers', None)
         mimetype = kwargs.pop('mimetype', DEFAULT_MIME)
         content_type = kwargs.pop('content_type', None)
-        super(HTTPException, self).__init__(response=self.to_text(),
+        super(HTTPException, self).__init__(response=self._encode_body(self.to_text()),
                                             status=self.code,
                                             headers=headers,
                                             mimetype=DEFAULT_MIME,
@@ -176,8 +176,15 @@ class HTTPException(BaseResponse, Exception):
         except KeyError:
             fmt_name, mimetype = 'text', 'text/plain'
         _method = getattr(self, 'to_' + fmt_name)
-        self.data = _method()
+        self.data = self._encode_body(_method())
         self.headers['Content-Type'] = get_content_type(mimetype, self.charset)
+
+    def _encode_body(self, text):
+        # exception messages can carry lone surrogates (e.g. undecodable
+        # file names via os.fsdecode), which a strict encode refuses
+        if isinstance(text, unicode):
+            text = text.encode(self.charset, 'backslashreplace')
+        return text
 
     def transcribe(self, request):
         # TODO
